@@ -13,6 +13,7 @@ Record input := {
   i_chunkings : list (list bytes);
   i_spec : spec;
   i_int : list (str * Z);        (* CPython's int() on the candidate retry values of this stream *)
+  i_int_fail : list str;         (* ASCII candidates on which int() raised ValueError *)
   i_json : list (str * N)        (* CPython's json.loads on the candidate NDJSON lines: id of the canonical dump *)
 }.
 
@@ -86,6 +87,12 @@ Definition spec_ok (i : input) : bool :=
       end
   end.
 
+(* py_int_ascii agrees with CPython's int() on every ASCII candidate of the case *)
+Definition int_ok (i : input) : bool :=
+  forallb (fun kv => if forallb is_ascii (fst kv) then opt_eqb Z.eqb (py_int_ascii (fst kv)) (Some (snd kv)) else true)
+          (i_int i)
+  && forallb (fun k => opt_eqb Z.eqb (py_int_ascii k) None) (i_int_fail i).
+
 (* all chunkings are chunkings of one stream *)
 Definition same_stream (i : input) : bool :=
   match i_chunkings i with
@@ -113,13 +120,14 @@ Definition diag (c : input * list obs) : N :=
   let d := fold_left or_diag (map (fun mo => obs_diag (fst mo) (snd mo)) (combine m (snd c))) [] in
   bits_of (d ++ repeat false (8 - length d)%nat
              ++ [negb (spec_ok (fst c)); negb (same_stream (fst c));
-                 negb (Nat.eqb (length m) (length (snd c)))]) 256.
+                 negb (Nat.eqb (length m) (length (snd c))); negb (int_ok (fst c))]) 256.
 
 (* bit0: model <> implementation (any chunking, any observable, or the spec/stream sanity checks);
    bit1: guard_F18a false; bit2: guard_F18c false; bit3: outside the encoding's domain;
    bits 8..: diagnostics — 8 ill-formed flag, 9 bytes, 10 texts, 11 lines, 12 sse, 13 events_text, 14 ndjson,
-   15 end-to-end (generated client), 16 harness encoder <> Streaming.encode, 17 chunkings of different streams, 18 arity *)
+   15 end-to-end (generated client), 16 harness encoder <> Streaming.encode, 17 chunkings of different streams, 18 arity,
+   19 py_int_ascii <> CPython's int() on an ASCII candidate *)
 Definition run (cases : list (input * list obs)) : list N :=
   map (fun c =>
-         code (fun m o => all_eqb m o && spec_ok (fst c) && same_stream (fst c)) model_obs guards c
+         code (fun m o => all_eqb m o && spec_ok (fst c) && same_stream (fst c) && int_ok (fst c)) model_obs guards c
          + diag c) cases.
